@@ -84,7 +84,7 @@ func execC03(c run.Case) (res run.Result) {
 // the shape of the symptom), not by property. Most specific first; anything without a
 // listed trigger is "other" and is never a known finding.
 func classifyC03(m *d2ast.Map, in, t1, t2 string) string {
-	boardKw, importExt, edgeCharKey, array, wsLineInBlockComment := false, false, false, false, false
+	boardKw, importExt, edgeCharKey, array, wsLineInBlockComment, boardThenMore := false, false, false, false, false, false
 	d2ast.Walk(m, func(n d2ast.Node) bool {
 		switch t := n.(type) {
 		case *d2ast.Key:
@@ -110,6 +110,17 @@ func classifyC03(m *d2ast.Map, in, t1, t2 string) string {
 			}
 		case *d2ast.Map:
 			// a board block that shares its line with the previous statement (`r;layers{…}`)
+			// a board block followed by anything else in the same map (another statement, or a
+			// line comment trailing its closing brace): the printer hoists board blocks to the
+			// end of the map, which reorders them relative to what followed
+			seenBoard := false
+			for _, nb := range t.Nodes {
+				if nb.IsBoardNode() {
+					seenBoard = true
+				} else if seenBoard && nb.Unbox() != nil {
+					boardThenMore = true
+				}
+			}
 			for i := 1; i < len(t.Nodes); i++ {
 				if t.Nodes[i].IsBoardNode() && t.Nodes[i-1].Unbox() != nil &&
 					t.Nodes[i-1].Unbox().GetRange().End.Line == t.Nodes[i].Unbox().GetRange().Start.Line {
@@ -162,6 +173,8 @@ func classifyC03(m *d2ast.Map, in, t1, t2 string) string {
 		return "unquoted-key-with-escaped-edge-space-or-trailing-dash"
 	case boardKw:
 		return "board-keyword-in-unusual-form"
+	case boardThenMore && layoutOnly:
+		return "board-block-followed-by-other-content"
 	case importExt && !layoutOnly:
 		return "import-path-with-d2-extension"
 	case wsLineInBlockComment && layoutOnly:
